@@ -1,5 +1,5 @@
 (* C18 — the XHTML and MoinMoin converters are total, complete and escape everything.   PARTIAL: the writer layer. *)
-From Odf Require Import model.Base model.Chars model.XmlPrint model.XmlLex model.Html proofs.XmlPrintProofs proofs.XmlLexProofs proofs.XmlRoundTrip proofs.HtmlProofs.
+From Odf Require Import model.Base model.Chars model.XmlPrint model.XmlLex model.XmlTree model.Html model.HtmlDoc proofs.XmlPrintProofs proofs.XmlLexProofs proofs.XmlRoundTrip proofs.HtmlProofs proofs.HtmlDocProofs.
 
 (* Every handler of odf2xhtml.py writes document-derived strings through writedata() (saxutils.escape) or through the
    attribute dictionaries of opentag()/emptytag() (saxutils.quoteattr).  run = the lexer of a conforming XML parser
@@ -22,3 +22,33 @@ Print Assumptions C18_attribute_stays_attribute.
 Theorem C18_escaped_has_no_markup_start : forall s, mem_cp cLT (h_escape s) = false.
 Proof. exact escaped_has_no_lt. Qed.
 Print Assumptions C18_escaped_has_no_markup_start.
+
+(* ---- the whole output as a sequence of writer calls (model/HtmlDoc.v; the harness records the calls of real conversions
+   and compares the real output with h_render of the recorded calls) ---- *)
+
+(* ANY sequence of writer calls - opentag, closetag, emptytag, writedata, the character reference of text:s, the
+   internal style sheet - whose tag and attribute names are names and whose other strings are arbitrary XML characters,
+   is lexed by a conforming parser into exactly one token per tag call, carrying the attribute values as given, with
+   the character data between them exactly as given: no string can add, remove or change a token *)
+Theorem C18_output_tokens : forall evs, forallb ev_ok evs = true -> forall ts acc k,
+  lfinish (run (h_render evs) (mkL ts (MText acc k))) = Some (ts ++ ev_toks evs acc).
+Proof. exact lex_events. Qed.
+Print Assumptions C18_output_tokens.
+
+Theorem C18_tags_are_the_calls : forall evs acc, tag_toks (ev_toks evs acc) = ev_tags evs.
+Proof. exact tags_are_the_calls. Qed.
+Print Assumptions C18_tags_are_the_calls.
+
+(* under the tag-stack discipline (every closetag names the innermost open tag, one root, text inside elements) the
+   token stream builds a tree: the output is well-formed *)
+Theorem C18_output_well_formed : forall evs, forallb ev_ok evs = true -> wellnested evs [] false = true ->
+  exists ts r, lfinish (run (h_render evs) linit) = Some ts /\ ts = ev_toks evs [] /\ build ts [] None = Some r.
+Proof. exact output_well_formed. Qed.
+Print Assumptions C18_output_well_formed.
+
+(* the style sheet: whatever the style properties of the document contain - "]]>" included - the CDATA section ends
+   where the writer ends it *)
+Theorem C18_style_sheet_stays_text : forall ts acc k s, plain s = true ->
+  run (h_css s) (mkL ts (MText acc k)) = mkL ts (MText (acc ++ css_text s) 0).
+Proof. exact lex_css. Qed.
+Print Assumptions C18_style_sheet_stays_text.
